@@ -16,7 +16,8 @@ from driver import run_batch
 from wire import to_wire, canon, exc_class
 from props.common import scale, depth_of, schema_tags, load_corpus
 
-THEOREMS = ["c08_promotions", "c08_primitives", "c08_enum_default", "c08_field_matching", "Tables.resolve_tables", "Tables.resolve_dispatch"]
+THEOREMS = ["c08_match_eq_spec", "c08_pick_eq_spec", "c08_promotions", "c08_primitives", "c08_enum_default", "c08_field_matching",
+            "Tables.resolve_tables", "Tables.resolve_dispatch"]
 TARGETS = ["Properties.TablesResolve", "Properties.C08"]
 
 PROMO = {"int": ["long", "float", "double"], "long": ["float", "double"], "float": ["double"],
